@@ -35,11 +35,11 @@ ASSUMPTIONS = [
     "vertex_to_edges (C01) is the reference frame of the local feature-edge indices",
 ]
 BOUNDS = {
-    "quick": "border: SURF triangles n<=5 all labelled (434), tri+quad n=4 all, n=5 <=4 faces, pentagons, SURF(6) classes (28), "
+    "quick": "border: SURF triangles n<=5 all labelled (434), tri+quad n=4 all, n=5 <=4 faces, pentagons, SURF(6) classes (28), face-listing deviations <=1 on n<=4, "
              "holey grids 3x3 tri/quad all, 4x4 quad all (320), 4x4 tri <=3 removed, full grids, swiss (4 loops), ZOO; "
              "features: hinge x 91 angles (20 per side of each threshold) x sign x 10 declarations x 12 options, "
              "accordions with 1-2 folds, cones/bipyramids, SURF(<=5) on the moment curve, ZOO, non-convex flat quads",
-    "thorough": "border: + SURF(6) all labelled (12934), tri+quad n=5 <=5 faces (2612), holey 3x4 tri all (743), 4x5 quad all, "
+    "thorough": "border: + SURF(6) all labelled (12934), face-listing deviations <=1 on triangles n=5, tri+quad n=5 <=5 faces (2612), holey 3x4 tri all (743), 4x5 quad all, "
                 "4x4 tri <=5 removed, 4x4 mixed <=4 removed, 5x5 quad <=3 removed, 3x3 mixed all; features: + hinge shapes/orientations x 40 per side, accordions with 2 folds (all 72 angle "
                 "pairs x 4 modes x 2 widths) and 3 folds (54 angle triples x 2 sign patterns x 2 modes), all 12 options, all cones/bipyramids, SURF(6) all labelled, previous-run states on every family",
 }
@@ -73,6 +73,12 @@ def _border_inputs(tier):
     else:
         for i, fl in enumerate(F.surf_enum(6)):
             ins.append([f"tri6#{i}", 6, None, fl])
+    # deviations from the canonical listing (start vertex of a face, order of two faces): <= 1
+    for n, ar in (((3, (3,)), (4, (3, 4))) if tier == "quick" else ((3, (3,)), (4, (3, 4)), (5, (3,)))):
+        for i, fl in enumerate(F.surf_enum(n, ar)):
+            for tag, g in F.face_listing_deviations(fl, 1):
+                if tag:
+                    ins.append([f"dev{n}#{i}:{'-'.join(map(str, tag[0]))}", n, None, g])
     hg = [(3, 3, "tri", None), (3, 3, "quad", None), (4, 4, "quad", None), (4, 4, "tri", 3 if tier == "quick" else 5)]
     if tier == "thorough":
         hg += [(3, 4, "tri", None), (4, 5, "quad", None), (3, 3, "mixed", None), (5, 5, "quad", 3), (4, 4, "mixed", 4)]
@@ -210,7 +216,30 @@ def _feature_plan(tier):
     return plan
 
 
+def _selftest():
+    """The reference against brute-force facts on tiny inputs (a failure is a harness error, never a pass)."""
+    for deg, want in ((20, "<37"), (36.8, "<37"), (36.87, "near37"), (36.95, "37-60"), (59.9, "37-60"), (60.0, "near60"),
+                      (60.1, ">60"), (90, ">60"), (179, ">60"), (-50, "37-60"), (-61, ">60")):
+        for shape in (0, 1):
+            pts, fl = L.hinge(math.radians(deg), shape, flip=bool(shape))
+            o = L.FeatureOracle(pts, fl)
+            assert o.band[(0, 1)] == want, (deg, shape, o.band[(0, 1)], want)
+            assert sum(o.border.values()) == 4 and o.usable
+    pts, fl = L.accordion(4, 3, "mixed", [1.2, -0.2])
+    o = L.FeatureOracle(pts, fl)
+    assert sorted(set(o.band.values())) == ["<37", ">60", "border"], set(o.band.values())
+    assert [e for e in o.edges if o.band[e] == ">60"] == [(3, 4), (4, 5)]
+    assert L.FeatureOracle(*L.nonconvex_flat(1, 0)).shapes == ["nonconvex", "convex"]
+    assert not L.FeatureOracle([[0, 0, 0], [1, 0, 0], [1, 1, 1], [0, 1, 0]], [[0, 1, 2, 3]]).usable      # non-planar quad
+    assert abs(L.FeatureOracle(*L.cone(4, 1.0)).angle_sum[4] - 4 * math.pi / 3) < 1e-12
+    for mode in ("quad", "tri"):
+        p, f = L.swiss(mode)
+        assert F.is_oriented_manifold(f, len(p)) and len(F.border_loops(f)) == 4 and len(F.components(len(p), F.undirected_edges(f))) == 1
+    assert sorted(map(sorted, F.border_loops([(0, 1, 2), (0, 2, 3)]))) == [[0, 1, 2, 3]] and L.chords_of([(0, 1, 2), (0, 2, 3)]) == [(0, 2)]
+
+
 def tasks(tier):
+    _selftest()
     out = []
     ins = _border_inputs(tier)
     small = [x for x in ins if x[1] <= 9]
@@ -225,9 +254,13 @@ def tasks(tier):
         for sort in (True, False):
             if not sort and fam in ("hinge_fine", "surf6"):
                 continue
+            d, o = decls, opts
+            if not sort and fam in ("hinge", "hinge2") and len(decls) == len(DECL_ALL):
+                # unsorted rings only matter for the local indices: reduced declaration/option product
+                d, o = DECL_MID + [["dense", "even"]], (OPTS_MIN if tier == "quick" else OPTS_MID)
             for i in range(0, len(meshes), batch):
                 out.append({"kind": "feat", "family": fam, "sort": sort, "meshes": meshes[i:i + batch],
-                            "decls": decls, "opts": opts, "prevs": prevs})
+                            "decls": d, "opts": o, "prevs": prevs})
     return out
 
 
@@ -352,7 +385,8 @@ def _check_border_mesh(M, name, n, pts, faces, sort, rep: Report):
     if not o.ok:
         bad("polyline", "extract_boundary_of_surface", exc_kind(o), {"msg": o.msg})
     else:
-        verdict = _judge_polyline(o.value, m, bverts, bedges, rep)
+        j = call(_judge_polyline, o.value, m, bverts, bedges, rep)
+        verdict = j.value if j.ok else ("result_shape", {"got": repr(o.value)[:300], "reading_it_raised": f"{j.exc}: {j.msg}"})
         rep.outcome("polyline", verdict[0] if verdict else "ok")
         if verdict:
             bad("polyline." + verdict[0].split(":")[0], "extract_boundary_of_surface", "mismatch:" + verdict[0], verdict[1])
@@ -619,7 +653,10 @@ def _run_feature_mesh(M, rep: Report, task, name, pts, faces, orc, und):
                         rep.violation("C15.features.run", "FeatureEdgeDetector.run", exc_kind(r), icls, {**cx.base, "phase": ph, "msg": r.msg})
                         break
                     rep.outcome("run", "ok")
-                    _check_detector(rep, det, m, orc, cx, ph, baseline)
+                    c = call(_check_detector, rep, det, m, orc, cx, ph, baseline)
+                    if not c.ok:     # reading the documented result containers failed
+                        rep.violation("C15.features.containers", "FeatureEdgeDetector", "raises:" + c.exc,
+                                      f"only_border={ob}:flag_corners={fc}", {**cx.base, "phase": ph, "msg": c.msg})
                 rep.states += 1
                 rep.case(("feat", name, mode, sel, ob, fc, co, prev, sort))
 
@@ -687,8 +724,8 @@ def finish(tier, rep: Report):
         fails.append("the four hinge angles placed inside the guard band were not filtered")
     if len(rep.outcomes.get("corner", ())) < 3:
         fails.append("fewer than 3 distinct corner orders observed")
-    if len(rep.outcomes.get("cycle_all", ())) < 3:
-        fails.append("extract_border_cycle_all: fewer than 3 distinct outcomes")
+    if len(rep.outcomes.get("cycle_all", ())) < 2:
+        fails.append("extract_border_cycle_all: a single distinct outcome")
     want_border = {"quick": 1500, "thorough": 30000}[tier]
     if rep.counters.get("border_meshes", 0) < want_border:
         fails.append(f"border family smaller than pinned floor: {rep.counters.get('border_meshes', 0)} < {want_border}")
